@@ -182,15 +182,15 @@ func (r *Run) Finish(level string) int {
 		}
 		nviol++
 		exit = 1
-		if nviol > 25 {
+		if nviol > maxPrint() {
 			continue
 		}
 		path := r.writeReplay(v)
 		fmt.Printf("VIOLATION property=%s replay=%s\n", r.ID, path)
 		fmt.Printf("  class=%s case=%s occurrences=%d\n  %s\n", key, v.CaseID, v.Count, Trunc(v.Detail, 1500))
 	}
-	if nviol > 25 {
-		fmt.Printf("... %d further violation classes not printed\n", nviol-25)
+	if nviol > maxPrint() {
+		fmt.Printf("... %d further violation classes not printed (set VERIF_MAXPRINT to see more)\n", nviol-maxPrint())
 	}
 	r.writeEvidence(level, nviol)
 	if exit == 0 {
@@ -339,4 +339,13 @@ func (r *Run) Watch(caseID string) func() {
 		delete(watchMap, k)
 		watchMu.Unlock()
 	}
+}
+
+
+func maxPrint() int {
+	n := 25
+	if v := os.Getenv("VERIF_MAXPRINT"); v != "" {
+		fmt.Sscan(v, &n)
+	}
+	return n
 }
